@@ -462,13 +462,13 @@ def run_cfg(ctx, p, cfg, release):
                                 r.require(not early, "no-early-exit-from-piece-loop", fn=f, detail="from the Some edge the Time chunk is reached only through the next iterator step")
 
     with ctx.rule("T4", "highlight adds only style", cfg) as r:
-        f = p.fn(FENCODE)
+        f = p.fn_loops(FENCODE)
         si = top_switch(f, ("param", 1))
         reg = arm_regions(f, si).get("Highlight", set())
         wr = [c.callee for c in f.calls() if c.block in reg and (c.callee or "").startswith("std::io::Write::")]
         ss = [c for c in f.calls("encode::Write::set_style") if c.block in reg]
         ce = [c for c in f.calls(CHUNK_ENCODE) if c.block in reg]
-        r.require(not wr and len(ce) == 1 and len(ss) >= 2, "only-style-and-children", fn=f, detail="Highlight arm: io writes %s, set_style %d, children encode %d" % (wr, len(ss), len(ce)))
+        r.require(not wr and len(ce) >= 1 and not any(o.block != c.block and f.can_reach(c.block, o.block) for c in ce for o in ce) and len(ss) >= 2, "only-style-and-children", fn=f, detail="Highlight arm: io writes %s, set_style %d, children encode %d" % (wr, len(ss), len(ce)))
 
     with ctx.rule("T5", "escapes", cfg) as r:
         f = p.fn(PARSER_NEXT)
@@ -531,7 +531,7 @@ def run_cfg(ctx, p, cfg, release):
     with ctx.rule("T6", "order", cfg) as r:
         loops = []
         for path in (PENCODE, FENCODE):
-            f = p.fn(path)
+            f = p.fn_loops(path)
             for c in f.calls(CHUNK_ENCODE):
                 if not f.in_loop(c.block):
                     continue
@@ -563,7 +563,7 @@ def run_cfg(ctx, p, cfg, release):
 
 def run_gating(ctx, p, cfg, release):
     with ctx.rule("T3", "profile gating", cfg) as r:
-        f = p.fn(FENCODE)
+        f = p.fn_loops(FENCODE)
         si = top_switch(f, ("param", 1))
         rb = f.reachable_blocks()
         live = {}
